@@ -87,7 +87,8 @@ Definition tree_agrees {A} (r : res A) (m : A -> bool) (icls : nat) : bool :=
 (* the serializer clauses that need pairwise distinct member names *)
 Definition roundtrip_claimed (s : serializer) (c : tcomp) : bool :=
   match ts s with FormatAsObjects => names_distinct c | FormatAsFlatArrays => true | _ => false end &&
-  match bs s with Base64ByteSerializer => false | _ => true end.
+  match bs s with Base64ByteSerializer => false | _ => true end &&
+  no_zero_len (ty_of c) && no_fixed_point (ty_of c).     (* the identity claim's exclusions *)
 
 Definition denote_claimed (s : serializer) (c : tcomp) : bool :=
   match ts s with FormatAsObjects => names_distinct c | FormatOther => false | _ => true end.
